@@ -402,6 +402,18 @@ def run(ctx):
         if toks[0] != "0":
             return ("sort-leaves-inversion", "%s: %s of the %d one-inversion inputs are left unsorted (first: elements %s and %d exchanged)" % (d, toks[0], c[1] - 1, toks[1], int(toks[1]) + 1))
         return None
+    pcs = [[A, n, ctx.seed * 10 + j] for j, (A, n) in enumerate([(0, 500), (2, 777), (8, 4099)] if ctx.quick() else [(0, 500), (2, 501), (3, 777), (8, 1024), (0, 4099), (4, 20000)])]
+    ctx.rules.append("sort-prefixsweep (oracle only): inputs whose elements from index 9 on are non-decreasing with ties and whose first ten elements run over every non-increasing sequence of {0,1,2,3} "
+                     "(286) and 400 seeded sequences of {0..3}, plain and key-only comparison: the result is the sorted permutation")
+
+    def prefix_oracle(c, toks):
+        d = "parallel_sort of %d elements, already non-decreasing from index 9 on, first ten elements over {0..3} (every non-increasing sequence + 400 seeded ones), task_arena(%s)" % (c[1], c[0] or "default")
+        if not toks or toks[-1] == "HANG" or toks[0].startswith("CRASH"):
+            return ("sort-hang-or-crash", d)
+        if toks[0] != "0":
+            return ("sort-leaves-prefix-unsorted", "%s: %s of %s inputs are left unsorted (first: input #%s)" % (d, toks[0], toks[2], toks[1]))
+        return None
+    oracle_tie(ctx, "sort-prefixsweep", exe, ["prefixsweep"], pcs, prefix_oracle, bucket=lambda c: "prefixsweep n=%d" % c[1], timeout=900)
     oracle_tie(ctx, "sort-invsweep", exe, ["invsweep"], ic, inv_oracle, bucket=lambda c: "invsweep A=%d" % c[0], describe=lambda c: "one-inversion sweep n=%d arena=%d" % (c[1], c[0]), timeout=900)
 
 
